@@ -17,6 +17,9 @@ var placeHolderIns *PlaceHolder
 // errSpaceOverflow 空间使用溢出错误
 var errSpaceOverflow = errors.New("placeholder space usage overflow")
 
+// errIllegalLen 申请的空间长度非法
+var errIllegalLen = errors.New("illegal space length")
+
 // PlaceHolder 占位对象
 type PlaceHolder struct {
 	// count hook 次数统计
@@ -58,6 +61,11 @@ func init() {
 // acquireFromHolder enough executable space from holder
 // nolint
 func acquireFromHolder(len int) (uintptr, *[]byte, error) {
+	// a negative length converted to uintptr would pass both bound checks and move the offset backwards
+	if len < 0 {
+		return 0, nil, errIllegalLen
+	}
+
 	placeholder := atomic.LoadUintptr(&placeHolderIns.off)
 	if placeholder+uintptr(len) > placeHolderIns.max {
 		logger.Error("placeholder space usage overflow")
